@@ -352,6 +352,20 @@ def payload_streams(tier):
             chunk = [{"qindex": 3, "payloads": (format(hi, "08b") + format(lo, "08b"), "", "")} for lo in range(256)]
             for c0 in range(0, 256, 64):
                 out.append(("hq-d0-2byte-%d-%d" % (hi, c0), f, chunk[c0 : c0 + 64]))
+    # extreme coefficient magnitudes (exp-Golomb codes far longer than a machine word)
+    f = geoms[1][1]
+    ny = B.slice_coeff_count(f, "Y", 0, 0)
+    chunk = []
+    for k in (1, 8, 31, 32, 63, 64, 127, 128, 255, 256, 257, 300, 512, 1000):
+        for v in ((1 << k) - 2, (1 << k) - 1, 1 << k):
+            for sign in (1, -1):
+                y = [0] * ny
+                y[(k + (sign > 0)) % ny] = sign * v
+                y[0] = y[0] or 3
+                chunk.append({"qindex": 0, "coeffs": (y, [sign * v] + [0] * (ny - 1), [0] * (ny - 1) + [-sign * v])})
+    fbig = f.but(slice_size_scaler=8)
+    for c0 in range(0, len(chunk), 12):
+        out.append(("hq-extreme-%d" % c0, fbig, chunk[c0 : c0 + 12]))
     # low delay: slice_bytes 1, 2 (and 3 in thorough): every slice_y_length, every payload
     for sb in ((1, 2) if quick else (1, 2, 3)):
         f = T(profile=B.PROFILE_LD, major_version=1, frame_width=2, frame_height=2, slices_x=1, dwt_depth=0, slice_bytes_numerator=sb, slice_bytes_denominator=1)
